@@ -16,6 +16,7 @@ import (
 	"os"
 	"path/filepath"
 	"sort"
+	"strconv"
 	"strings"
 )
 
@@ -48,6 +49,7 @@ type Descriptor struct {
 	OpOnly         bool     `json:"op_only"`       // scheduling must stay operation-granular
 	LockRewrites   int      `json:"lock_rewrites"` // x.Lock()/x.RLock() statements rewritten to TryLock loops
 	ClockNote      string   `json:"clock_note,omitempty"`
+	ClockScales    []int64  `json:"clock_scales,omitempty"` // durations the tree's source mentions (ns)
 	OwnLockTypes   []string `json:"own_lock_types,omitempty"`
 	OwnLockMethods []string `json:"own_lock_methods,omitempty"` // Lock/RLock/TryLock methods declared by the module itself
 	ClockReads     int      `json:"clock_reads"`                // time.Now / Since / Until / Sleep expressions redirected to the simulated clock
@@ -58,6 +60,8 @@ type Descriptor struct {
 	Verbatim       []string `json:"verbatim"`                   // files copied without instrumentation (unparsable, package main, not imported by the root package)
 	SiteTable      []Site   `json:"-"`
 }
+
+var timeUnits = map[string]int64{"Nanosecond": 1, "Microsecond": 1e3, "Millisecond": 1e6, "Second": 1e9, "Minute": 60e9, "Hour": 3600e9}
 
 var syncishSelector = map[string]bool{"Load": true, "Store": true, "Swap": true, "CompareAndSwap": true, "Add": true,
 	"Lock": true, "Unlock": true, "RLock": true, "RUnlock": true, "TryLock": true, "Get": true, "Put": true,
@@ -152,6 +156,7 @@ func RunOpts(srcDir, dstDir string, rewrite bool) (*Descriptor, error) {
 	parsed := map[string]*ast.File{}
 	srcs := map[string][]byte{}
 	clockSeam := true
+	clockScales := map[int64]bool{}         // durations (ns) that appear in the tree as N * time.Unit or time.Unit
 	pkgVars := map[string]map[string]bool{} // dir -> names
 	pkgMut := map[string]map[string]bool{}  // dir -> names of package-level variables that are not error sentinels
 	for _, rel := range goFiles {
@@ -391,6 +396,22 @@ func RunOpts(srcDir, dstDir string, rewrite bool) (*Descriptor, error) {
 				return false
 			case *ast.BlockStmt:
 				visitBlock(x.List, false)
+			case *ast.BinaryExpr:
+				if x.Op == token.MUL && timeName != "" {
+					// N * time.Unit: a duration the tree compares the clock with
+					for _, pair := range [][2]ast.Expr{{x.X, x.Y}, {x.Y, x.X}} {
+						lit, ok1 := pair[0].(*ast.BasicLit)
+						sel, ok2 := pair[1].(*ast.SelectorExpr)
+						if !ok1 || !ok2 || lit.Kind != token.INT {
+							continue
+						}
+						if id, ok := sel.X.(*ast.Ident); ok && id.Name == timeName && timeUnits[sel.Sel.Name] > 0 {
+							if n, err := strconv.ParseInt(lit.Value, 0, 64); err == nil && n > 0 && n < 1<<20 {
+								clockScales[n*timeUnits[sel.Sel.Name]] = true
+							}
+						}
+					}
+				}
 			case *ast.ForStmt:
 				if es, ok := x.Post.(*ast.ExprStmt); ok && rewrite && isGosched(es.X) {
 					// for ; cond; runtime.Gosched() { }: the wait hint goes to the top of the body
@@ -428,6 +449,8 @@ func RunOpts(srcDir, dstDir string, rewrite bool) (*Descriptor, error) {
 							timeRewrites++
 							d.ClockReads++
 						}
+					case "Nanosecond", "Microsecond", "Millisecond", "Second", "Minute", "Hour":
+						clockScales[timeUnits[x.Sel.Name]] = true
 					case "After", "AfterFunc", "NewTimer", "NewTicker", "Tick":
 						d.Timers = append(d.Timers, fmt.Sprintf("%s:%d time.%s", rel, tf.Line(x.Pos()), x.Sel.Name))
 					}
@@ -507,6 +530,11 @@ func RunOpts(srcDir, dstDir string, rewrite bool) (*Descriptor, error) {
 	hb.WriteString("// SiteInfo describes one yield site.\ntype SiteInfo struct {\n\tFile string\n\tLine int\n\tFunc string\n\tFuncFirst bool\n\tGlobal bool\n\tHot bool\n}\n\n")
 	fmt.Fprintf(&hb, "// OwnLockTypes: types of the module that declare Lock / RLock / TryLock methods themselves.\nvar OwnLockTypes = %#v\n\n", append([]string{}, d.OwnLockTypes...))
 	fmt.Fprintf(&hb, "// ExactLocks: the module declares Lock methods of its own; only receivers that are exactly a sync mutex are acquired cooperatively.\nconst ExactLocks = %v\n\n", len(d.OwnLockMethods) > 0)
+	for sc := range clockScales {
+		d.ClockScales = append(d.ClockScales, sc)
+	}
+	sort.Slice(d.ClockScales, func(i, j int) bool { return d.ClockScales[i] < d.ClockScales[j] })
+	fmt.Fprintf(&hb, "// ClockScales: the durations (nanoseconds) the module's source mentions; the simulated clock jumps by multiples of them.\nvar ClockScales = %#v\n\n", append([]int64{}, d.ClockScales...))
 	fmt.Fprintf(&hb, "// ClockSites is the number of clock expressions of the module redirected to the simulated clock.\nconst ClockSites = %d\n\n", d.ClockReads)
 	fmt.Fprintf(&hb, "// OpOnly is set when the module contains blocking synchronisation of its own.\nconst OpOnly = %v\n\n", d.OpOnly)
 	hb.WriteString("// Sites is the table of generated yield sites.\nvar Sites = [...]SiteInfo{\n")
